@@ -71,6 +71,11 @@ def check(chk):
     pm = chk.pm
     _space(chk)
     _forward_complete(chk)
+    # queries leave the stored decomposition alone (shared with C14): an accessor that rescales the stored arrays in place
+    # changes what every later scores() / components() / transform() returns
+    from . import c14 as _c14q
+    from .c01 import _Relabel as _RLq
+    _c14q._query_mutates(_RLq(chk, "HIST.query_mutates", "AGREE.query_mutates"))
     _agree(chk)
     _acc(chk)
     chk.floor("SPACE.project", 6)
@@ -135,6 +140,11 @@ def _space(chk):
                           f"(expected {expect_fwd} forward stages): data and components live in different bases",
                       facts={"forward_stages_on_data": fwd, "component_net_lowering": net})
         chk.require(found >= 1, f"{cname}.{mname}: projection dot product not found (anchor vanished)")
+    _stored(chk)
+
+
+def _stored(chk):
+    pm = chk.pm
     # the rotator stores its vectors in whitened PC space
     fit = pm.own_method("xeofs.cross.cpcca_rotator.CPCCARotator", "_fit_algorithm")
     ff = FuncFacts.of(fit)
